@@ -271,8 +271,8 @@ func (p *ParserZH) expectBlockIndent() (bool, int) {
 	var peekLine = p.StartLineIdxP2
 	var currLine = p.StartLineIdxP1
 
-	var peekIndent = p.GetLineInfo(peekLine).Indents
-	var currIndent = p.GetLineInfo(currLine).Indents
+	var peekIndent = p.getLineIndent(peekLine)
+	var currIndent = p.getLineIndent(currLine)
 
 	if peekIndent == currIndent+1 {
 		return true, peekIndent
@@ -282,9 +282,17 @@ func (p *ParserZH) expectBlockIndent() (bool, int) {
 
 // getPeekIndent -
 func (p *ParserZH) getPeekIndent() int {
-	var peekLine = p.StartLineIdxP2
+	return p.getLineIndent(p.StartLineIdxP2)
+}
 
-	lineInfo := p.GetLineInfo(peekLine)
+// getLineIndent - indentation of a line; a line that begins inside a multi-line
+// text or comment has the indentation of the line that token began on
+func (p *ParserZH) getLineIndent(lineIdx int) int {
+	lineInfo := p.GetLineInfo(lineIdx)
+	for lineInfo != nil && lineInfo.Continued && lineIdx > 0 {
+		lineIdx--
+		lineInfo = p.GetLineInfo(lineIdx)
+	}
 	if lineInfo == nil {
 		return 0
 	}
@@ -293,13 +301,7 @@ func (p *ParserZH) getPeekIndent() int {
 
 // getCurrIndent -
 func (p *ParserZH) getCurrIndent() int {
-	var currLine = p.StartLineIdxP1
-
-	lineInfo := p.GetLineInfo(currLine)
-	if lineInfo == nil {
-		return 0
-	}
-	return lineInfo.Indents
+	return p.getLineIndent(p.StartLineIdxP1)
 }
 
 // equals to s.SetCurrentLine(<line of tk>)
